@@ -101,7 +101,7 @@ func (fr *Frame) rangeNext(st *State, x *ssa.Next) {
 	r.assume(st, implies(not(okv), fmt.Sprintf("(forall ((%s %s)) (=> (select %s %s) (select %s %s)))", q, mi.ksort, dom, q, visited, q)))
 	v := TV{r.define("rv", mi.vsort, app("select", app("select", mi.m, m), k.S)), mi.vsort, mt.Elem()}
 	r.assumeGlobal(r.typeInv(v.S, mt.Elem(), st))
-	r.heapSet(st, name, app("store", h, it, app("store", visited, k.S, okv)))
+	r.heapSet(st, name, app("store", h, it, ite(okv, app("store", visited, k.S, "true"), visited)))
 	out = append(out, k, v)
 	st.env[x] = out
 }
@@ -455,8 +455,24 @@ func (fr *Frame) applyContract(st *State, sp *FuncSpec, fn *ssa.Function, sig *t
 		fmt.Fprintf(os.Stderr, "[contract-havoc] %s in %s: %v\n", sp.Name, fr.fn.Name(), sortedKeys(mods))
 	}
 	refined := map[string][]string{} // heap name -> object expressions the modification is confined to
-	if sp.HasMod {
-		for _, m := range sp.Modifies {
+	declared := sp.Modifies
+	if !sp.HasMod && len(sp.AlsoMods) > 0 && !sp.Pure {
+		declared = sp.AlsoMods
+		if mods == nil {
+			mods = map[string]bool{}
+		} else {
+			cp := map[string]bool{}
+			for k := range mods {
+				cp[k] = true
+			}
+			mods = cp
+		}
+		for k := range r.eng.declaredMods(&FuncSpec{Name: sp.Name, Pkg: sp.Pkg, Modifies: sp.AlsoMods, HasMod: true}, nil) {
+			mods[k] = true
+		}
+	}
+	if sp.HasMod || len(declared) > 0 {
+		for _, m := range declared {
 			i := strings.Index(m, " of ")
 			if i < 0 {
 				continue
@@ -604,6 +620,9 @@ func (fr *Frame) builtin(st *State, b *ssa.Builtin, c *ssa.CallCommon, v ssa.Val
 			q := r.fresh("qm")
 			dm := app("select", mi.dom, a.S)
 			r.assume(st, fmt.Sprintf("(forall ((%s %s)) (! (=> (and (not (= %s 0)) (select %s %s)) (> %s 0)) :pattern ((select %s %s))))", q, mi.ksort, a.S, dm, q, ln, dm, q))
+			// ... and a map of positive length holds some key (witness)
+			wk := r.freshOf(st, "mapwit", t.Key()).S
+			r.assume(st, implies(app(">", ln, "0"), and(not(eq(a.S, "0")), app("select", dm, wk))))
 			return TV{ln, SInt, it}
 		case *types.Array:
 			return TV{num(t.Len()), SInt, it}
@@ -1117,6 +1136,7 @@ func (fr *Frame) siteGeneric(st *State, kind, name string, extra map[string]Val)
 		for k, v := range extra {
 			cx.binds[k] = v
 		}
+		cx.undefLocals = kind == "return" // a local not defined on this return path is arbitrary there
 		f, err := cx.boolExpr(ss.Clause.Expr)
 		if err != nil {
 			fr.run.eng.bindError(fr.spec, ss.Clause, err)
